@@ -168,7 +168,7 @@ func (v *VerifOffice) Receive(h int, wait bool) (string, uint64) {
 		cancel()
 	}
 	defer cancel()
-	conn, err := b.receive(ctx)
+	conn, err := b.receive(ctx, nil)
 	if err == nil {
 		return "conn", conn.(*verifTagConn).tag
 	}
